@@ -23,7 +23,7 @@ Definition vm_cls (r : res fs) : nat :=
   match r with
   | Ok _ => 0 | Err XOutside => 1 | Err XDigest => 2 | Err XAbsLink => 3 | Err XWriteThrough => 3 | Err _ => 4
   end%nat.
-Definition vm_hyp (t : tree) : bool := is_dir t && wf_treeb t && modes_okb t && benign_tree t.
+Definition vm_hyp (pre : path) (t : tree) : bool := is_dir t && wf_treeb t && modes_okb t && benign_tree pre t.
 (* the listing printed by the runner: every listed path has the listed node, nothing else is bound *)
 Definition vm_listing (r : res fs) (l : list (path * node)) : bool :=
   match r with
@@ -111,9 +111,9 @@ def _vm_goal(case, out):
                         "d": lambda: "NDir %d" % int(mode, 8),
                         "l": lambda: "NLink %s" % _vm_str(payload)}[typ]()
                 items.append("(%s, %s)" % (_vm_path(pth), node))
-            return "(vm_hyp %s, vm_listing (%s)\n   [%s]) = (%s, true)" % (t, call, ";\n    ".join(items), hb)
+            return "(vm_hyp %s %s, vm_listing (%s)\n   [%s]) = (%s, true)" % (_vm_path(toks[3]), t, call, ";\n    ".join(items), hb)
         cls = {"ERR outside": 1, "ERR digest": 2, "ERR reject": 4}[rest]
-        return "(vm_hyp %s, vm_cls (%s)) = (%s, %d%%nat)" % (t, call, hb, cls)
+        return "(vm_hyp %s %s, vm_cls (%s)) = (%s, %d%%nat)" % (_vm_path(toks[3]), t, call, hb, cls)
     if k == "E":
         n = int(toks[4])
         ents = []
@@ -201,7 +201,7 @@ def _c12_vm_sample(d, tier, coq, build):
 
 CONFIG = {
     "properties_file": "Properties/C12.v",
-    "proof_files": ["Base/Prelude.v", "Proofs/TarRoundTrip.v", "Proofs/TarWalkOrder.v", "Proofs/TarListingOrder.v", "Proofs/TarRootMode.v"],
+    "proof_files": ["Base/Prelude.v", "Proofs/TarRoundTrip.v", "Proofs/TarWalkOrder.v", "Proofs/TarListingOrder.v", "Proofs/TarModeSweep.v", "Proofs/TarRootMode.v"],
     "model_files": ["Generated/GC12.v", "Model/TarRoundTrip.v", "Model/FileAnnotations.v"],
     "extract": "XC12.v",
     "ml_main": "c12_main.ml",
